@@ -193,7 +193,13 @@ class _FA:
             self.stmt(st, env)
 
     def stmt(self, st, env):
-        if isinstance(st, ast.Assign):
+        if isinstance(st, ast.Assign) and getattr(st, "_inplace", None):
+            # canonical form of `np.f(..., out=A)` (N8): A is written in place and keeps its identity
+            self.ev(st.value, env)
+            cur = env.get(st._inplace)
+            if cur is not None:
+                self.mutate(cur, st, "out= argument")
+        elif isinstance(st, ast.Assign):
             v = self.ev(st.value, env)
             for t in st.targets:
                 self.assign(t, v, env, st)
@@ -806,6 +812,8 @@ def check_inplace_views(P, R, own, key, rule="ALIAS.inplace-view"):
             base = base.value
         if isinstance(base, ast.Name) and tgt is not None:
             inplace.append((st, base.id))
+        if isinstance(st, ast.Assign) and getattr(st, "_inplace", None):
+            inplace.append((st, st._inplace))  # canonical form of `np.f(..., out=A)` (N8)
         for c in (x for x in ast.walk(st) if isinstance(st, ast.stmt) and isinstance(x, ast.Call)):
             for kw in c.keywords:
                 if kw.arg == "out" and isinstance(kw.value, ast.Name):
